@@ -1456,6 +1456,11 @@ class Router(NetworkNode, discriminator="router"):
         :param frame: The frame to be routed or forwarded.
         :param from_network_interface: The network interface from which the frame originated.
         """
+        # ARP is link-local: a request or reply meant for somebody else is never routed (resolving its target here would
+        # only make this router broadcast a request of its own, which the other routers of the LAN would pick up in turn)
+        if isinstance(frame.payload, ARPPacket):
+            return
+
         # check if frame is addressed to this Router but has failed to be received by a service of application at the
         # receive_frame stage
         if frame.ip:
